@@ -10,6 +10,7 @@ from torch import Tensor
 
 from linear_operator.operators._linear_operator import IndexType, LinearOperator
 
+from linear_operator.utils.broadcasting import _matmul_broadcast_shape
 from linear_operator.utils.getitem import _compute_getitem_size
 from linear_operator.utils.memoize import cached
 
@@ -54,11 +55,11 @@ class ZeroLinearOperator(LinearOperator):
 
     def _get_indices(self, row_index: IndexType, col_index: IndexType, *batch_indices: IndexType) -> torch.Tensor:
         new_size = _compute_getitem_size(self, batch_indices + (row_index, col_index))
-        return torch.zeros(*new_size)
+        return torch.zeros(*new_size, dtype=self._dtype, device=self._device)
 
     def _getitem(self, row_index: IndexType, col_index: IndexType, *batch_indices: IndexType) -> LinearOperator:
         new_size = _compute_getitem_size(self, batch_indices + (row_index, col_index))
-        return ZeroLinearOperator(*new_size)
+        return ZeroLinearOperator(*new_size, dtype=self._dtype, device=self._device)
 
     def _matmul(
         self: Float[LinearOperator, "*batch M N"],
@@ -67,13 +68,8 @@ class ZeroLinearOperator(LinearOperator):
         rhs_size_ind = -2 if rhs.ndimension() > 1 else -1
         if self.size(-1) != rhs.size(rhs_size_ind):
             raise RuntimeError("Size mismatch, self: {}, rhs: {}".format(self.size(), rhs.size()))
-        new_m = self.size(-2)
-        if rhs_size_ind == -1:
-            *batch_shape, m = rhs.shape
-            output_shape = (*batch_shape, new_m)
-        else:
-            *batch_shape, m, n = rhs.shape
-            output_shape = (*batch_shape, new_m, n)
+        # The batch dimensions of the operator and of rhs broadcast against each other
+        output_shape = _matmul_broadcast_shape(self.shape, rhs.shape)
         return torch.zeros(*output_shape, dtype=rhs.dtype, device=rhs.device)
 
     def _prod_batch(self, dim: int) -> LinearOperator:
@@ -111,13 +107,8 @@ class ZeroLinearOperator(LinearOperator):
         rhs_size_ind = -2 if rhs.ndimension() > 1 else -1
         if self.size(-2) != rhs.size(rhs_size_ind):
             raise RuntimeError("Size mismatch, self: {}, rhs: {}".format(self.size(), rhs.size()))
-        new_m = self.size(-1)
-        if rhs_size_ind == -1:
-            *batch_shape, m = rhs.shape
-            output_shape = (*batch_shape, new_m)
-        else:
-            *batch_shape, m, n = rhs.shape
-            output_shape = (*batch_shape, new_m, n)
+        # The batch dimensions of the operator and of rhs broadcast against each other
+        output_shape = _matmul_broadcast_shape((*self.shape[:-2], self.size(-1), self.size(-2)), rhs.shape)
         return torch.zeros(*output_shape, dtype=rhs.dtype, device=rhs.device)
 
     def _transpose_nonbatch(self: Float[LinearOperator, "*batch M N"]) -> Float[LinearOperator, "*batch N M"]:
@@ -199,13 +190,8 @@ class ZeroLinearOperator(LinearOperator):
         tensor_size_ind = -2 if other.ndimension() > 1 else -1
         if self.size(-1) != other.size(tensor_size_ind):
             raise RuntimeError("Size mismatch, self: {}, other: {}".format(self.size(), other.size()))
-        new_m = self.size(-2)
-        if tensor_size_ind == -1:
-            *batch_shape, m = other.shape
-            output_shape = (*batch_shape, new_m)
-        else:
-            *batch_shape, m, n = other.shape
-            output_shape = (*batch_shape, new_m, n)
+        # The batch dimensions of the operator and of other broadcast against each other
+        output_shape = _matmul_broadcast_shape(self.shape, other.shape)
         return ZeroLinearOperator(*output_shape, dtype=other.dtype, device=other.device)
 
     def mul(
@@ -224,7 +210,7 @@ class ZeroLinearOperator(LinearOperator):
 
     @cached
     def to_dense(self: Float[LinearOperator, "*batch M N"]) -> Float[Tensor, "*batch M N"]:
-        return torch.zeros(*self.sizes)
+        return torch.zeros(*self.sizes, dtype=self._dtype, device=self._device)
 
     def transpose(self, dim1: int, dim2: int) -> LinearOperator:
         sizes = self.sizes.copy()
@@ -232,7 +218,7 @@ class ZeroLinearOperator(LinearOperator):
         sizes[dim1] = sizes[dim2]
         sizes[dim2] = tmp
 
-        return ZeroLinearOperator(*sizes)
+        return ZeroLinearOperator(*sizes, dtype=self._dtype, device=self._device)
 
     def __add__(
         self: Float[LinearOperator, "... #M #N"],
